@@ -188,15 +188,25 @@ impl MetricsBuilder {
 }
 
 impl MaxBuilder {
-    fn update(&mut self, id: GlyphId16, glyph: &Glyph) {
+    fn update(&mut self, id: GlyphId16, glyph: &Glyph) -> Result<(), Error> {
+        // maxp fields are u16: reject counts that would otherwise wrap around
+        let count = |what: &str, n: usize| -> Result<u16, Error> {
+            u16::try_from(n).map_err(|_| Error::OutOfBounds {
+                what: format!("{what} of glyph '{}'", glyph.name),
+                value: n.to_string(),
+            })
+        };
         if let Some(bbox) = glyph.data.bbox() {
             self.bbox = self.bbox.map(|b| b.union(bbox)).or(Some(bbox));
         }
 
         let glyph_info = match &glyph.data {
             RawGlyph::Simple(simple) => {
-                let num_points = simple.contours.iter().map(Contour::len).sum::<usize>() as u16;
-                let num_contours = simple.contours.len() as u16;
+                let num_points = count(
+                    "number of points",
+                    simple.contours.iter().map(Contour::len).sum::<usize>(),
+                )?;
+                let num_contours = count("number of contours", simple.contours.len())?;
                 self.max_points = max(self.max_points, num_points);
                 self.max_contours = max(self.max_contours, num_contours);
                 GlyphInfo {
@@ -209,7 +219,7 @@ impl MaxBuilder {
                 }
             }
             RawGlyph::Composite(composite) => {
-                let num_components = composite.components().len() as u16;
+                let num_components = count("number of components", composite.components().len())?;
                 self.max_component_elements = max(self.max_component_elements, num_components);
                 let components = Some(composite.components().iter().map(|c| c.glyph).collect());
                 GlyphInfo {
@@ -223,16 +233,18 @@ impl MaxBuilder {
             },
         };
         self.glyph_info.insert(id, glyph_info);
+        Ok(())
     }
 
     // FontTools maxp <https://github.com/fonttools/fonttools/blob/e8146a6d0725d398cfa110cba683946ee762f8e2/Lib/fontTools/ttLib/tables/_m_a_x_p.py#L53>
-    fn update_composite_limits(&mut self) -> GlyphLimits {
+    fn update_composite_limits(&mut self) -> Result<GlyphLimits, Error> {
         let mut pending = self
             .glyph_info
             .iter()
             .filter_map(|(gid, gi)| if gi.is_component() { Some(*gid) } else { None })
             .collect::<Vec<_>>();
         let mut overall_max = GlyphLimits::default();
+        let mut overflow = None;
         let mut components: Vec<Option<GlyphLimits>> = Vec::with_capacity(8);
         while !pending.is_empty() {
             let size_before = pending.len();
@@ -254,12 +266,22 @@ impl MaxBuilder {
                     return true;
                 }
                 // We know the limits of all child components; a final result is achievable
+                // maxp totals are u16: saturate here and report the overflow below,
+                // instead of panicking (debug) or wrapping around (release)
                 let limit = components.iter().map(|limits| limits.unwrap()).fold(
                     GlyphLimits::default(),
                     |acc, e| GlyphLimits {
-                        max_points: acc.max_points + e.max_points,
-                        max_contours: acc.max_contours + e.max_contours,
-                        max_depth: acc.max_depth.max(e.max_depth + 1),
+                        max_points: acc.max_points.checked_add(e.max_points).unwrap_or_else(|| {
+                            overflow = Some(*gid);
+                            u16::MAX
+                        }),
+                        max_contours: acc.max_contours.checked_add(e.max_contours).unwrap_or_else(
+                            || {
+                                overflow = Some(*gid);
+                                u16::MAX
+                            },
+                        ),
+                        max_depth: acc.max_depth.max(e.max_depth.saturating_add(1)),
                     },
                 );
                 self.glyph_info.get_mut(gid).unwrap().limits = Some(limit);
@@ -272,7 +294,13 @@ impl MaxBuilder {
             );
         }
 
-        overall_max
+        if let Some(gid) = overflow {
+            return Err(Error::OutOfBounds {
+                what: format!("composite points or contours of glyph id {gid}"),
+                value: "more than 65535".into(),
+            });
+        }
+        Ok(overall_max)
     }
 }
 
@@ -324,29 +352,33 @@ impl Work<Context, AnyWorkId, Error> for MetricAndLimitWork {
             .at(static_metadata.default_location());
 
         // Collate horizontal metrics
-        let builder =
-            glyph_order
-                .iter()
-                .fold(MetricsBuilder::default(), |mut builder, (_gid, gn)| {
-                    // https://github.com/googlefonts/ufo2ft/blob/2f11b0ff/Lib/ufo2ft/outlineCompiler.py#L741-L747
-                    let advance: u16 = context
-                        .ir
-                        .get_glyph(gn.clone())
-                        .default_instance()
-                        .width
-                        .ot_round();
+        let builder = glyph_order.iter().try_fold(
+            MetricsBuilder::default(),
+            |mut builder, (_gid, gn)| -> Result<_, Error> {
+                // https://github.com/googlefonts/ufo2ft/blob/2f11b0ff/Lib/ufo2ft/outlineCompiler.py#L741-L747
+                let width = context.ir.get_glyph(gn.clone()).default_instance().width;
+                // hmtx advances are u16: reject what would otherwise be silently clamped
+                let rounded: f64 = width.ot_round();
+                if !(0.0..=u16::MAX as f64).contains(&rounded) {
+                    return Err(Error::OutOfBounds {
+                        what: format!("advance width of glyph '{gn}'"),
+                        value: width.to_string(),
+                    });
+                }
+                let advance: u16 = width.ot_round();
 
-                    let glyph = context.glyphs.get(&WorkId::GlyfFragment(gn.clone()).into());
+                let glyph = context.glyphs.get(&WorkId::GlyfFragment(gn.clone()).into());
 
-                    let side_bearing = glyph.data.bbox().map(|bbox| bbox.x_min).unwrap_or_default();
-                    let bounds_advance = glyph
-                        .data
-                        .bbox()
-                        .map(|bbox| bbox.x_max as i32 - bbox.x_min as i32);
+                let side_bearing = glyph.data.bbox().map(|bbox| bbox.x_min).unwrap_or_default();
+                let bounds_advance = glyph
+                    .data
+                    .bbox()
+                    .map(|bbox| bbox.x_max as i32 - bbox.x_min as i32);
 
-                    builder.update(advance, side_bearing, bounds_advance);
-                    builder
-                });
+                builder.update(advance, side_bearing, bounds_advance);
+                Ok(builder)
+            },
+        )?;
 
         let metrics = builder.build();
 
@@ -390,17 +422,17 @@ impl Work<Context, AnyWorkId, Error> for MetricAndLimitWork {
             .into();
         context.hmtx.set(raw_hmtx);
 
-        let mut max_builder =
-            glyph_order
-                .iter()
-                .fold(MaxBuilder::default(), |mut builder, (gid, gn)| {
-                    let glyph = context.glyphs.get(&WorkId::GlyfFragment(gn.clone()).into());
-                    builder.update(gid, &glyph);
-                    builder
-                });
+        let mut max_builder = glyph_order.iter().try_fold(
+            MaxBuilder::default(),
+            |mut builder, (gid, gn)| -> Result<_, Error> {
+                let glyph = context.glyphs.get(&WorkId::GlyfFragment(gn.clone()).into());
+                builder.update(gid, &glyph)?;
+                Ok(builder)
+            },
+        )?;
 
         // Might as well do maxp while we're here
-        let composite_limits = max_builder.update_composite_limits();
+        let composite_limits = max_builder.update_composite_limits()?;
         let maxp = Maxp {
             num_glyphs: glyph_order.len().try_into().unwrap(),
             // maxp computes it's version based on whether fields are set
